@@ -2,9 +2,11 @@
    (parent and child), of builtins/utils.rs _get_std_fds / print_stdout / print_stderr, and the
    POSIX reference the properties C02 / C04 / C08 compare it with.  No proofs here.
 
-   fixed = false : the code as it is.
-   fixed = true  : the code after notes/C02-fix-1.patch (the child no longer closes the numbers
-                   the parent has already closed: the left-side loop and close(fds_prev.1)). *)
+   The model is of the code as it is (/repo d4ac685).  The record [variant] keeps, as switches, the
+   five behaviours that were repaired in /repo 8dc92a8, 07e8792, 219c117, 3c1f8de, d4ac685: a flag
+   that is OFF gives the code BEFORE that commit (used only for regression examples and so that
+   the theorems, which quantify over every variant, also say what each repair bought).
+   [v0] (all on) is the code as it is; the registered theorems are about [v0]. *)
 From Coq Require Import List Arith Bool.
 From Cicada Require Import Model.OsLite.
 Import ListNotations.
@@ -33,8 +35,17 @@ Definition close_pairs (l : list (nat * nat)) (p : proc) : proc :=
 Definition opt_close_pair (o : option (nat * nat)) (p : proc) : proc :=
   match o with Some fds => close_pair fds p | None => p end.
 
+Record variant := mkv {
+  v_dupclose : bool;   (* 8dc92a8: close the dup()ed descriptor after dup2 in the 2>&1 / 1>&2 branches *)
+  v_bcap : bool;       (* 07e8792: the single-builtin path closes the capture pipes *)
+  v_capclose : bool;   (* 219c117: a captured last stage with a redirected stream still closes the capture ends *)
+  v_capfail : bool;    (* 3c1f8de: a failing capture pipe() releases the stage pipes *)
+  v_bunop : bool       (* d4ac685: a builtin whose target cannot be opened fails with status 1 *)
+}.
+Definition v0 : variant := mkv true true true true true.
+
 Section Run.
-Variable fixed : bool.
+Variable v : variant.
 Variable fail_at : nat -> bool.        (* the k-th pipe() call of run_pipeline fails (EMFILE) *)
 Variable openable : nat -> bool.       (* can this path be opened / created *)
 
@@ -49,6 +60,7 @@ Fixpoint mk_pipes (m k : nat) (p : proc) : proc * list (nat * nat) * bool :=
   end.
 
 (* ---------------- child: the redirects_to loop, core.rs:375-430 ---------------- *)
+Definition dup_done (fd : nat) (p : proc) : proc := if v_dupclose v then p_close fd p else p.
 (* result: inr = the child exited (status 1); inl (p, stdout_redirected, stderr_redirected) *)
 Fixpoint child_redirs (notlast capture : bool) (rs : list redir) (so se : bool) (p : proc)
   : (proc * bool * bool) + proc :=
@@ -60,14 +72,14 @@ Fixpoint child_redirs (notlast capture : bool) (rs : list redir) (so se : bool) 
       if notlast then child_redirs notlast capture rest so se (p_dup2 1 2 p)
       else if negb capture then
         match p_dup 1 p with
-        | (p1, Some fd) => child_redirs notlast capture rest so se (p_dup2 fd 2 p1)
+        | (p1, Some fd) => child_redirs notlast capture rest so se (dup_done fd (p_dup2 fd 2 p1))
         | (p1, None) => inr (p_ev (EExit 1) p1)
         end
       else child_redirs notlast capture rest so se p
     | F1, TAmp2 =>
       if notlast || negb capture then
         match p_dup 2 p with
-        | (p1, Some fd) => child_redirs notlast capture rest so se (p_dup2 fd 1 p1)
+        | (p1, Some fd) => child_redirs notlast capture rest so se (dup_done fd (p_dup2 fd 1 p1))
         | (p1, None) => inr (p_ev (EExit 1) p1)
         end
       else child_redirs notlast capture rest so se p
@@ -84,59 +96,69 @@ Fixpoint child_redirs (notlast capture : bool) (rs : list redir) (so se : bool) 
   end.
 
 (* ---------------- child of stage idx, core.rs:296-508 ---------------- *)
-Definition child_run (pipes : list (nat * nat)) (capo cape : option (nat * nat))
-           (capture : bool) (idx : nat) (st : stage) (hs : option (nat * nat)) (p : proc) : kid :=
+(* close the pipes on the right, the capture pipes unless last, dup2 the adjacent ends onto 0 / 1 *)
+Definition child_prologue (pipes : list (nat * nat)) (capo cape : option (nat * nat)) (idx : nat) (p : proc) : proc :=
   let pc := length pipes in
   let notlast := idx <? pc in
-  (* left side: for i in 0..idx-1 *)
-  let p := if fixed then p else
-           if 0 <? idx then close_pairs (firstn (idx - 1) pipes) p else p in
   (* right side: for i in idx+1..pipes_count *)
   let p := close_pairs (skipn (idx + 1) pipes) p in
   let p := if notlast then opt_close_pair cape (opt_close_pair capo p) else p in
   let p := if 0 <? idx then
              let fds := nth (idx - 1) pipes (0, 0) in
-             let p := p_close (fst fds) (p_dup2 (fst fds) 0 p) in
-             if fixed then p else p_close (snd fds) p
+             p_close (fst fds) (p_dup2 (fst fds) 0 p)
            else p in
-  let p := if notlast then
-             let fds := nth idx pipes (0, 0) in
-             p_close (fst fds) (p_close (snd fds) (p_dup2 (snd fds) 1 p))
-           else p in
-  let after_from : proc + proc :=
-    match s_from st with
-    | FFile path =>
-      if openable path then
-        let '(p1, n) := p_open path MRead p in inl (p_close n (p_dup2 n 0 p1))
-      else inr (p_ev (EExit 1) (p_openfail path MRead p))
-    | FHere =>
-      match hs with
-      | Some fds => inl (p_close (fst fds) (p_dup2 (fst fds) 0 (p_close (snd fds) p)))
-      | None => inl p
-      end
-    | FNone => inl p
-    end in
-  match after_from with
+  if notlast then
+    let fds := nth idx pipes (0, 0) in
+    p_close (fst fds) (p_close (snd fds) (p_dup2 (snd fds) 1 p))
+  else p.
+
+(* `<` file and here-string; inr = the child exited with status 1 *)
+Definition child_from (st : stage) (hs : option (nat * nat)) (p : proc) : proc + proc :=
+  match s_from st with
+  | FFile path =>
+    if openable path then
+      let '(p1, n) := p_open path MRead p in inl (p_close n (p_dup2 n 0 p1))
+    else inr (p_ev (EExit 1) (p_openfail path MRead p))
+  | FHere =>
+    match hs with
+    | Some fds => inl (p_close (fst fds) (p_dup2 (fst fds) 0 (p_close (snd fds) p)))
+    | None => inl p
+    end
+  | FNone => inl p
+  end.
+
+(* capture output of the last process, core.rs:432-448 *)
+Definition child_capture (capo cape : option (nat * nat)) (so se : bool) (p : proc) : proc :=
+  let p := match capo with
+           | Some fds =>
+             if so then (if v_capclose v then close_pair fds p else p)
+             else p_close (snd fds) (p_dup2 (snd fds) 1 (p_close (fst fds) p))
+           | None => p end in
+  match cape with
+  | Some fds =>
+    if se then (if v_capclose v then close_pair fds p else p)
+    else p_close (snd fds) (p_dup2 (snd fds) 2 (p_close (fst fds) p))
+  | None => p end.
+
+Definition child_finish (idx : nat) (st : stage) (p : proc) : kid :=
+  match s_kind st with
+  | KBuiltin => mkkid idx (p_ev (EExit 0) p) (OExit 0)     (* status of the builtin: not modelled *)
+  | KNotFound => mkkid idx (p_ev (EExit 127) p) (OExit 127)
+  | KExt => mkkid idx (p_exec p) OExec
+  end.
+
+Definition child_run (pipes : list (nat * nat)) (capo cape : option (nat * nat))
+           (capture : bool) (idx : nat) (st : stage) (hs : option (nat * nat)) (p : proc) : kid :=
+  let pc := length pipes in
+  let p := child_prologue pipes capo cape idx p in
+  match child_from st hs p with
   | inr q => mkkid idx q (OExit 1)
   | inl p =>
-    match child_redirs notlast capture (s_redirs st) false false p with
+    match child_redirs (idx <? pc) capture (s_redirs st) false false p with
     | inr q => mkkid idx q (OExit 1)
     | inl (p, so, se) =>
-      let p := if (idx =? pc) && capture then
-                 let p := if so then p else
-                          match capo with
-                          | Some fds => p_close (snd fds) (p_dup2 (snd fds) 1 (p_close (fst fds) p))
-                          | None => p end in
-                 if se then p else
-                 match cape with
-                 | Some fds => p_close (snd fds) (p_dup2 (snd fds) 2 (p_close (fst fds) p))
-                 | None => p end
-               else p in
-      match s_kind st with
-      | KBuiltin => mkkid idx (p_ev (EExit 0) p) (OExit 0)     (* status of the builtin: not modelled *)
-      | KNotFound => mkkid idx (p_ev (EExit 127) p) (OExit 127)
-      | KExt => mkkid idx (p_exec p) OExec
-      end
+      let p := if (idx =? pc) && capture then child_capture capo cape so se p else p in
+      child_finish idx st p
     end
   end.
 
@@ -177,42 +199,46 @@ Fixpoint run_stages (pipes : list (nat * nat)) (capo cape : option (nat * nat)) 
 
 (* ---------------- builtins run in the shell: builtins/utils.rs ---------------- *)
 (* _get_std_fds: (fd_out, fd_err); the recursive call for 1>&2 looks at the REST of the list *)
+(* `1> foo.log` / `2> foo.log`: create_raw_fd_from_file; Err leaves the candidate None *)
+Definition open_cand (r : redir) (p : proc) : proc * option nat :=
+  let path := target_path (r_to r) in
+  if openable path then let '(p1, n) := p_open path (wmode (r_app r)) p in (p1, Some n)
+  else (p_openfail path (wmode (r_app r)) p, None).
+(* the candidate for descriptor 1; la = the look-ahead call _get_std_fds(&redirects[i+1..]) *)
+Definition gsf_cand1 (la : proc * option nat * option nat) (r : redir) (p : proc) : proc * option nat :=
+  match r_to r with
+  | TAmp2 =>
+    let '(p1, _o, e) := la in
+    match e with
+    | Some fd => (p1, Some fd)
+    | None => p_dup 2 p1
+    end
+  | _ => open_cand r p
+  end.
+(* the candidate for descriptor 2 *)
+Definition gsf_cand2 (out : option nat) (r : redir) (p : proc) : proc * option nat :=
+  match r_to r with
+  | TAmp1 =>
+    match out with
+    | Some fd => p_dup fd p
+    | None => (p, None)
+    end
+  | _ => open_cand r p
+  end.
+Definition oclose (o : option nat) (p : proc) : proc :=
+  match o with Some fd => p_close fd p | None => p end.
+
 Fixpoint get_std_fds (rs : list redir) (out err : option nat) (p : proc) : proc * option nat * option nat :=
   match rs with
   | [] => (p, out, err)
   | r :: rest =>
     match r_fd r with
     | F1 =>
-      let '(p, cand) :=
-        match r_to r with
-        | TAmp2 =>
-          let '(p1, _o, e) := get_std_fds rest None None p in
-          match e with
-          | Some fd => (p1, Some fd)
-          | None => let '(p2, d) := p_dup 2 p1 in (p2, d)
-          end
-        | to =>
-          let path := target_path to in
-          if openable path then let '(p1, n) := p_open path (wmode (r_app r)) p in (p1, Some n)
-          else (p_openfail path (wmode (r_app r)) p, None)
-        end in
-      let p := match out with Some fd => p_close fd p | None => p end in
-      get_std_fds rest cand err p
+      let '(p, cand) := gsf_cand1 (get_std_fds rest None None p) r p in
+      get_std_fds rest cand err (oclose out p)
     | F2 =>
-      let '(p, cand) :=
-        match r_to r with
-        | TAmp1 =>
-          match out with
-          | Some fd => let '(p1, d) := p_dup fd p in (p1, d)
-          | None => (p, None)
-          end
-        | to =>
-          let path := target_path to in
-          if openable path then let '(p1, n) := p_open path (wmode (r_app r)) p in (p1, Some n)
-          else (p_openfail path (wmode (r_app r)) p, None)
-        end in
-      let p := match err with Some fd => p_close fd p | None => p end in
-      get_std_fds rest out cand p
+      let '(p, cand) := gsf_cand2 out r p in
+      get_std_fds rest out cand (oclose err p)
     end
   end.
 
@@ -238,6 +264,21 @@ Fixpoint builtin_prints (rs : list redir) (prints : list bool) (p : proc) : proc
                  let '(p2, os) := builtin_prints rs rest p1 in (p2, o :: os)
   end.
 
+Fixpoint builtin_preopen (rs : list redir) (p : proc) : proc * bool :=
+  match rs with
+  | [] => (p, true)
+  | r :: rest =>
+    match r_fd r, r_to r with
+    | F2, TAmp1 => builtin_preopen rest p
+    | F1, TAmp2 => builtin_preopen rest p
+    | _, to =>
+      let path := target_path to in
+      if openable path then
+        let '(p1, n) := p_open path (wmode (r_app r)) p in builtin_preopen rest (p_close n p1)
+      else (p_openfail path (wmode (r_app r)) p, false)
+    end
+  end.
+
 (* ---------------- run_pipeline, core.rs:114-251 ---------------- *)
 Record result := mkres { res_shell : proc; res_kids : list kid; res_error : bool;
                          res_sinks : list (option obj) }.
@@ -250,12 +291,14 @@ Definition is_single_builtin (pl : plan) : bool :=
 
 (* capture pipes, core.rs:188-209; their pipe() calls are number m and m+1 (m = stage pipes).
    NOTE the pipeline2 / pipeline3 error returns do not release the stage pipes. *)
-Definition mk_capture (capture : bool) (m : nat) (sh : proc)
+Definition cap_release (pipes : list (nat * nat)) (sh : proc) : proc :=
+  if v_capfail v then close_pairs pipes sh else sh.
+Definition mk_capture (capture : bool) (m : nat) (pipes : list (nat * nat)) (sh : proc)
   : proc * option (nat * nat) * option (nat * nat) * bool :=
   if capture then
-    if fail_at m then (p_pipefail sh, None, None, true)
+    if fail_at m then (cap_release pipes (p_pipefail sh), None, None, true)
     else let '(sh1, o) := p_pipe PCapOut sh in
-         if fail_at (S m) then (close_pair o (p_pipefail sh1), None, None, true)
+         if fail_at (S m) then (cap_release pipes (close_pair o (p_pipefail sh1)), None, None, true)
          else let '(sh2, e) := p_pipe PCapErr sh1 in (sh2, Some o, Some e, false)
   else (sh, None, None, false).
 
@@ -267,14 +310,19 @@ Definition run_pipeline (pl : plan) (sh : proc) : result :=
     let '(sh, pipes, errored) := mk_pipes m 0 sh in
     if errored then mkres (close_pairs pipes sh) [] true []
     else
-      let '(sh, capo, cape, failed) := mk_capture (p_capture pl) m sh in
+      let '(sh, capo, cape, failed) := mk_capture (p_capture pl) m pipes sh in
       if failed then mkres sh [] true []
       else if is_single_builtin pl then
         (* try_run_builtin in the shell itself; the capture pipes are NOT closed on this path;
            with capture the text goes into the CommandResult, no descriptor is touched *)
-        if p_capture pl then mkres sh [] false []
+        let done (q : proc) : proc :=
+          if v_bcap v then opt_close_pair cape (opt_close_pair capo q) else q in
+        (* C04-fix-2: open every file target first (POSIX creates / truncates them anyway); fail if one cannot be opened *)
+        let '(sh, okb) := if v_bunop v then builtin_preopen (s_redirs st0) sh else (sh, true) in
+        if negb okb then mkres (done sh) [] true []
+        else if p_capture pl then mkres (done sh) [] false []
         else let '(sh1, sinks) := builtin_prints (s_redirs st0) (s_prints st0) sh in
-             mkres sh1 [] false sinks
+             mkres (done sh1) [] false sinks
       else
         let '(sh1, ks) := run_stages pipes capo cape (p_capture pl) 0 (p_stages pl) sh in
         mkres sh1 ks false []
@@ -317,6 +365,16 @@ Definition std_out (o0 : obj) (n : nat) (capture : bool) (idx : nat) : obj :=
 Definition std_err (e0 : obj) (n : nat) (capture : bool) (idx : nat) : obj :=
   if (S idx =? n) && capture then OPipeW PCapErr else e0.
 
+(* 1>&2 followed later by another redirection of descriptor 1, on a builtin that runs in the shell:
+   the look-ahead call of _get_std_fds opens / dups for that later redirection and drops the result *)
+Definition is_fd1 (r : redir) : bool := match r_fd r with F1 => true | F2 => false end.
+Fixpoint lookahead_leak (rs : list redir) : bool :=
+  match rs with
+  | [] => false
+  | r :: rest =>
+    (match r_fd r, r_to r with F1, TAmp2 => existsb is_fd1 rest | _, _ => false end) || lookahead_leak rest
+  end.
+
 (* ---------------- the known-finding classes, as decidable predicates on the plan ---------------- *)
 Definition is_dup21 (r : redir) : bool := match r_fd r, r_to r with F2, TAmp1 => true | _, _ => false end.
 Definition is_dup12 (r : redir) : bool := match r_fd r, r_to r with F1, TAmp2 => true | _, _ => false end.
@@ -324,15 +382,16 @@ Definition is_dup12 (r : redir) : bool := match r_fd r, r_to r with F1, TAmp2 =>
 Definition out_of_scope (r : redir) : bool :=
   match r_fd r, r_to r with F1, TAmp1 => true | F2, TAmp2 => true | _, _ => false end.
 
-(* here-string on a stage that is not the first (unrepaired code only) *)
-Definition known_here (fixed : bool) (idx : nat) (st : stage) : bool :=
-  negb fixed && match s_from st with FHere => 0 <? idx | _ => false end.
 (* the dup()ed descriptor of 2>&1 / 1>&2 is never closed *)
-Definition known_dupleak (last capture : bool) (st : stage) : bool :=
-  (existsb is_dup21 (s_redirs st) && last && negb capture)
-  || (existsb is_dup12 (s_redirs st) && (negb last || negb capture)).
-(* a captured last stage with any redirection *)
-Definition known_capredir (last capture : bool) (st : stage) : bool :=
-  last && capture && match s_redirs st with [] => false | _ => true end.
+Definition known_dupleak (v : variant) (last capture : bool) (st : stage) : bool :=
+  negb (v_dupclose v) &&
+  ((existsb is_dup21 (s_redirs st) && last && negb capture)
+   || (existsb is_dup12 (s_redirs st) && (negb last || negb capture))).
+(* a captured last stage with a redirection to a file keeps the capture ends (C08) *)
+Definition known_capredir (v : variant) (last capture : bool) (st : stage) : bool :=
+  negb (v_capclose v) && last && capture && existsb is_file_redir (s_redirs st).
+(* a captured last stage ignores 2>&1 / 1>&2 (C04) *)
+Definition known_capdup (last capture : bool) (st : stage) : bool :=
+  last && capture && (existsb is_dup21 (s_redirs st) || existsb is_dup12 (s_redirs st)).
 
 Definition t_std : table := [Some (OInh 0, false); Some (OInh 1, false); Some (OInh 2, false)].
